@@ -66,15 +66,15 @@ theorem key_is_from_the_issuers_document (cfg : Cfg) (P : Crypto) (E : Env) (au 
     (hURL : ∀ u d, E.parseDID (beforeHash u) = some d → E.didOfURL u = some d)
     (hfmt : c.format = .ld)
     (h : verify cfg P E au true at_ c = .ok ()) :
-    ∃ d doc p k, E.parseDID c.issuer = some d ∧ E.resolve at_ d = some doc ∧ c.proof = .one p ∧ (p.vm, k) ∈ doc.assertion ∧
-      P.sigOK k (tbs P p (P.canon c.stripProof)) p.jws = true := by
+    ∃ d doc p k id, E.parseDID c.issuer = some d ∧ E.resolve at_ d = some doc ∧ c.proof = .one p ∧ (id, k) ∈ doc.assertion ∧
+      keyIdMatches doc.base id p.vm = true ∧ P.sigOK k (tbs P p (P.canon c.stripProof)) p.jws = true := by
   obtain ⟨⟨d, hd, _⟩, hs, _⟩ := valid_only_if cfg P E au at_ c h
   simp only [hfmt] at hs
-  obtain ⟨p, k, hp, hb, ⟨d', doc, hd', hr, hm⟩, hsig, _⟩ := hs
+  obtain ⟨p, k, hp, hb, ⟨d', doc, id, hd', hr, hm, hk⟩, hsig, _⟩ := hs
   have : E.didOfURL p.vm = some d := hURL p.vm d (by rw [hb]; exact hd)
   rw [this] at hd'
   cases hd'
-  exact ⟨d, doc, p, k, hd, hr, hp, hm, hsig⟩
+  exact ⟨d, doc, p, k, id, hd, hr, hp, hm, hk, hsig⟩
 
 /-! ## non-vacuity: a concrete world in which the hypotheses above are met -/
 
@@ -570,6 +570,11 @@ example : verify exCfg exP { exE2 with
     { exU with issuer := "did:x:i2", id := some "did:x:i2#1",
                proof := .one { exProof with jws := exSign "K1" (tbs exP exProof (exP.canon { exU with issuer := "did:x:i2", id := some "did:x:i2#1" })) }, nProofs := 1 }
     = .err "vm-not-of-issuer" := by decide
+-- @base documents: a relative id of the ASSERTION relationship is matched through the base; a key that the document lists only
+-- for authentication (it is in verificationMethod, not in assertionMethod) does not resolve
+example : resolveKeyByID { exE with resolve := fun _ _ => some { assertion := [("#k", "K1")], base := some "did:x:i" } } (some 1) "did:x:i#k" = some "K1" ∧
+    resolveKeyByID { exE with resolve := fun _ _ => some { assertion := [("#k", "K1")], base := some "did:x:i" } } (some 1) "did:x:i#auth" = none ∧
+    resolveKeyByID { exE with resolve := fun _ _ => some { assertion := [("#k", "K1")], base := none } } (some 1) "did:x:i#k" = none := by decide
 -- tamper_evident: its hypotheses are satisfiable together.  Crypto in which exactly ONE (key, message, signature) triple
 -- verifies (so unforgeability holds with `Signed k m := m = exM0`); c' = the signed credential with another issuance date.
 example : ∃ (Signed : Key → Bytes → Prop) (c' : Cred),
@@ -846,6 +851,16 @@ theorem fact_wiring :
 /-- a refreshed status list replaces EVERY column of the stored copy (UpdateAll), so the bitstring that later checks read is the
     downloaded one -/
 theorem fact_status_list_refresh_replaces_all_columns : Nuts.Facts.C01.statusListUpdateOnConflict = ["UpdateAll:true"] := by decide
+/-- ResolveKeyByID iterates ONE collection — the requested relationship — for absolute and for @base-relative ids alike, and the
+    AssertionMethod relation selects `doc.AssertionMethod` (the model's `DidDoc.assertion`, `keyIdMatches`) -/
+theorem fact_key_lookup_iterates_the_relationship :
+    Nuts.Facts.C01.resolveKeyByIDRanges = ["relationships"] ∧
+    Nuts.Facts.C01.relationshipCollections = ["Authentication=>doc.Authentication", "AssertionMethod=>doc.AssertionMethod",
+      "KeyAgreement=>doc.KeyAgreement", "CapabilityInvocation=>doc.CapabilityInvocation", "CapabilityDelegation=>doc.CapabilityDelegation"] := by
+  refine ⟨by rfl, by rfl⟩
+/-- the status list issuer rebuilds a list from the issuer record WITH its revocations on renewal (Credential) and on Revoke -/
+theorem fact_status_list_renewal_loads_revocations :
+    Nuts.Facts.C01.statusListIssuerPreloads = ["Credential:Preload(\"Revocations\")", "Revoke:Preload(\"Revocations\")"] := by rfl
 theorem fact_max_skew : Nuts.Facts.C01.maxSkewMs = 5000 := by decide
 theorem fact_supported_algs : Nuts.Facts.C01.supportedAlgs = ["ES256", "EdDSA", "ES384", "ES512", "PS256", "PS384", "PS512"] := by decide
 theorem fact_signing_key_relation : Nuts.Facts.C01.signingKeyRelation = "AssertionMethod" := by decide
